@@ -19,15 +19,25 @@
 (***************************************************************************)
 EXTENDS Integers
 
-CONSTANTS Chunk,           \* bytes read per notification
-          Burst,           \* bytes the operator's burst puts into the terminal at once
-          EdgeTriggered
+CONSTANTS
+  \* @type: Int;
+  Chunk,           \* bytes read per notification
+  \* @type: Int;
+  Burst,           \* bytes the operator's burst puts into the terminal at once
+  \* @type: Bool;
+  EdgeTriggered
 
-VARIABLES tty,             \* bytes waiting in the terminal
-          ready,           \* a readiness notification is pending
-          parsed,          \* bytes read and parsed, whose events have not been handed out yet
-          handled,         \* bytes whose events radar has handled
-          sent             \* the burst has been typed
+VARIABLES
+  \* @type: Int;
+  tty,             \* bytes waiting in the terminal
+  \* @type: Bool;
+  ready,           \* a readiness notification is pending
+  \* @type: Int;
+  parsed,          \* bytes read and parsed, whose events have not been handed out yet
+  \* @type: Int;
+  handled,         \* bytes whose events radar has handled
+  \* @type: Bool;
+  sent             \* the burst has been typed
 vars == <<tty, ready, parsed, handled, sent>>
 
 Init == tty = 0 /\ ready = FALSE /\ parsed = 0 /\ handled = 0 /\ sent = FALSE
@@ -51,4 +61,12 @@ Drained == <>[](sent /\ handled = Burst)
 \* what is left waiting when nothing more can happen
 Stuck == sent /\ parsed = 0 /\ ~ready /\ tty > 0
 NeverStuck == ~Stuck
+
+\* ---- unbounded (Apalache): for ANY chunk size and ANY burst size a source notified while bytes remain never gets stuck.
+\* IndInv is inductive (Init => IndInv; IndInv /\ Next => IndInv') and implies NeverStuck.
+CInitLevel == Chunk \in Int /\ Burst \in Int /\ EdgeTriggered \in {FALSE} /\ Chunk > 0 /\ Burst > 0
+IndInv == /\ tty >= 0 /\ parsed >= 0 /\ handled >= 0
+          /\ tty + parsed + handled = (IF sent THEN Burst ELSE 0)
+          /\ ready = (tty > 0)
+IndInit == tty \in Int /\ ready \in BOOLEAN /\ parsed \in Int /\ handled \in Int /\ sent \in BOOLEAN /\ IndInv
 =============================================================================
